@@ -420,14 +420,17 @@ func (d *Datastore) TransactionSet(ctx context.Context, transactionId string, tr
 			return nil, ErrDatastoreLocked
 		default:
 			// Start a transaction and prepare to cancel it if any error occurs
-			types.VerifYieldPoint("set:register")
 			transactionGuard, err = d.transactionManager.RegisterTransaction(ctx, transaction)
 			if transactionGuard != nil {
 				defer transactionGuard.Done()
 				break
 			}
 			log.Warnf("Transaction: %s - failed to create transaction, retrying: %v", transactionId, err)
+			// release the datastore while waiting, the ongoing transaction must remain confirmable / cancelable
+			d.dmutex.Unlock()
+			types.VerifYieldPoint("set:register")
 			time.Sleep(time.Millisecond * 200)
+			d.dmutex.Lock()
 		}
 		if transactionGuard != nil {
 			break
